@@ -103,5 +103,99 @@ theorem invC_complete (A : Mat K) (n : ℕ)
   rw [invC_eq_inv A n hA]
   exact Mat.inv_complete A n hA L hL
 
+/-- Dimensions of a certified solution: `X` has as many rows as `A` has columns and as many columns
+as `B` (so statements quantified over `j < X.ncols` are not vacuous when `B` has columns). -/
+theorem solveC_dims {A B X : Mat K} (h : solveC A B = .ok X) :
+    X.size = A.ncols ∧ (0 < A.nrows → X.ncols = B.ncols) := by
+  obtain ⟨h1, h2⟩ := solveC_ok h
+  refine ⟨h1, fun hn => ?_⟩
+  have := Mat.row_size_mul_c14 A X 0 hn
+  rw [h2] at this
+  exact this.symm
+
+/-- Well-shapedness of a certified solution of a well-shaped system. -/
+theorem solveC_shape {A B X : Mat K} (n m : ℕ)
+    (hA : A.size = n ∧ ∀ i, i < n → (A.getD i #[]).size = n)
+    (hB : B.size = n ∧ ∀ i, i < n → (B.getD i #[]).size = m)
+    (h : solveC A B = .ok X) : X.size = n ∧ ∀ i, i < n → (X.getD i #[]).size = m := by
+  rw [solveC_eq_solve A B n m hA hB] at h
+  obtain ⟨s1, s2, _⟩ := Mat.solve_sound A B X n m hA hB h
+  exact ⟨s1, s2⟩
+
+section dims
+variable [FloorRing K]
+
+/-- A collocation matrix with as many points as basis functions is well shaped. -/
+theorem colloc_shape (b : Basis K) (tol : K) (ts : List K) (d : ℕ) (hlen : ts.length = b.numFunctions) :
+    (colloc b tol ts d).size = b.numFunctions ∧
+      ∀ i, i < b.numFunctions → ((colloc b tol ts d).getD i #[]).size = b.numFunctions := by
+  refine ⟨by rw [size_colloc, hlen], fun i hi => ?_⟩
+  rw [row_colloc b tol ts d i (by omega), size_evaluate_c14]
+
+/-- **Dimensions of the result of `interpolate`**: one row per basis function, as many columns as the
+data; every row has the width of the data rows if these are uniform. -/
+theorem interpolateCurve_dims (b : Basis K) (tol : K) (t : Option (List K)) (x c : Mat K)
+    (h : interpolateCurve b tol t x = .ok c) :
+    c.size = b.numFunctions ∧ c.ncols = x.ncols ∧
+    ∀ m, (∀ i, i < x.size → (x.getD i #[]).size = m) → ∀ l, l < c.size → (c.getD l #[]).size = m := by
+  unfold interpolateCurve at h
+  simp only [bind, Except.bind] at h
+  split at h
+  · exact absurd h (by simp)
+  · rename_i ts hts
+    split at h
+    · exact absurd h (by simp [throw, throwThe, MonadExceptOf.throw])
+    · rename_i hc
+      rw [size_colloc] at hc
+      have h1 : ts.length = b.numFunctions := by omega
+      have h2 : x.size = b.numFunctions := by omega
+      have hshape := colloc_shape b tol ts 0 h1
+      obtain ⟨d1, d2⟩ := solveC_dims h
+      have hcs : c.size = b.numFunctions := by
+        rw [d1]
+        unfold Mat.ncols
+        rcases Nat.eq_zero_or_pos b.numFunctions with h0 | hpos
+        · have : (colloc b tol ts 0).size = 0 := by rw [hshape.1, h0]
+          simp [Array.getD, this, h0]
+        · exact hshape.2 0 hpos
+      refine ⟨hcs, ?_, fun m hm => ?_⟩
+      · rcases Nat.eq_zero_or_pos b.numFunctions with h0 | hpos
+        · unfold Mat.ncols
+          have e1 : c.size = 0 := by rw [hcs, h0]
+          have e2 : x.size = 0 := by rw [h2, h0]
+          simp [Array.getD, e1, e2]
+        · exact d2 (by unfold Mat.nrows; rw [hshape.1]; exact hpos)
+      · have := solveC_shape b.numFunctions m hshape ⟨h2, fun i hi => hm i (by omega)⟩ h
+        intro l hl
+        exact this.2 l (by omega)
+
+/-- **Dimensions of the result of `least_square_fit`** (at least one sample point and one basis
+function): one row per basis function, the columns of the data. -/
+theorem leastSquareCurve_dims (b : Basis K) (tol : K) (ts : List K) (x c : Mat K) (hne : ts ≠ [])
+    (hn : 0 < b.numFunctions) (h : leastSquareCurve b tol ts x = .ok c) :
+    c.size = b.numFunctions ∧ c.ncols = x.ncols := by
+  unfold leastSquareCurve at h
+  simp only [bind, Except.bind] at h
+  split at h
+  · exact absurd h (by simp [throw, throwThe, MonadExceptOf.throw])
+  · set N := colloc b tol ts 0 with hN
+    have hpos : 0 < ts.length := List.length_pos_of_ne_nil hne
+    have hcols : N.ncols = b.numFunctions := by
+      unfold Mat.ncols
+      rw [hN, row_colloc b tol ts 0 0 hpos, size_evaluate_c14]
+    have hT : (Mat.transpose N).nrows = b.numFunctions := by rw [Mat.nrows_transpose_c14, hcols]
+    obtain ⟨d1, d2⟩ := solveC_dims h
+    have hG : (Mat.mul (Mat.transpose N) N).nrows = b.numFunctions := by rw [Mat.nrows_mul_c14, hT]
+    constructor
+    · rw [d1]
+      unfold Mat.ncols
+      rw [Mat.row_size_mul_c14 (Mat.transpose N) N 0 (by rw [hT]; exact hn), hcols]
+    · rw [d2 (by rw [hG]; exact hn)]
+      unfold Mat.ncols
+      rw [Mat.row_size_mul_c14 (Mat.transpose N) x 0 (by rw [hT]; exact hn)]
+      rfl
+
+end dims
+
 end Interp
 end Splipy
